@@ -26,8 +26,8 @@ META = {
     ],
     "required_counters": ["scenarios", "saturated_configs"],
     "bounds": {
-        "quick": {"A": [1, 2], "P": [0, 1, 2], "n": "A+P+3", "L1": "A=1,P in 0..1 with <=2 completions"},
-        "thorough": {"A": [1, 2, 3, 4], "P": [0, 1, 2, 3, 4], "n": "A+P+3", "max_body": "2 for A+P>=4", "L1": "A in 1..2, P in 0..1"},
+        "quick": {"A": [1, 2], "P": [0, 1, 2], "n": "A+P+3", "max_body": "2 for A+P>=4", "L1": "(A,P) in {(1,0),(1,1),(2,0)} with <=2 completions"},
+        "thorough": {"A": [1, 2, 3, 4], "P": [0, 1, 2, 3, 4], "n": "A+P+3", "max_body": "3 for A+P>=4", "L1": "(A,P) in {(1,0),(1,1),(2,0),(2,1),(1,2),(3,0)}"},
     },
 }
 
@@ -42,14 +42,14 @@ def scenarios(tier: str) -> List[Dict[str, Any]]:
         n = a + p + 3
         sc = {"A": a, "P": p, "N": None, "stream": "infinite", "stop": False, "level": 0,
               "msgs": [{} for _ in range(n)]}
-        if a + p >= (3 if tier == "quick" else 4):
-            sc["max_body"] = 2
+        if a + p >= 4:
+            sc["max_body"] = 2 if tier == "quick" else 3
         out.append(sc)
         # ackable + when_saved with a gated ack: the message stays unfinished until the ack completes
         if a + p <= 2:
             out.append({"A": a, "P": p, "N": None, "stream": "infinite", "stop": False, "level": 0, "max_body": 2,
                         "msgs": [{"ack": "async", "gates": ["ack"]} for _ in range(n)]})
-    l1 = [(1, 0), (1, 1)] if tier == "quick" else [(1, 0), (1, 1), (2, 0), (2, 1)]
+    l1 = [(1, 0), (1, 1), (2, 0)] if tier == "quick" else [(1, 0), (1, 1), (2, 0), (2, 1), (1, 2), (3, 0)]
     for a, p in l1:
         out.append({"A": a, "P": p, "N": None, "stream": "infinite", "stop": False, "level": 1, "max_body": 2,
                     "msgs": [{} for _ in range(a + p + 3)]})
